@@ -23,13 +23,8 @@ with the same successor), and which encodes to the same fingerprints. -/
 theorem C19_fp_roundtrip (M : Sys σ α) (key : σ → Nat) (inj : ∀ x y, key x = key y → x = y)
     (p : Path σ α) (h : IsExec M p) :
     ∃ p', fromFingerprints M key (encode key p) = some p' ∧ intoStates p' = intoStates p ∧
-      IsExec M p' ∧ encode key p' = encode key p := by
-  obtain ⟨s, hs, he⟩ := h
-  obtain ⟨p', hp', hst, he'⟩ := fromFpsAux_complete (key := key) inj he
-  have hk := encode_execFrom key he
-  have : fromFingerprints M key (encode key p) = some p' := by
-    rw [hk]; simp only [fromFingerprints, find_init_of_inj inj hs]; exact hp'
-  exact ⟨p', this, hst, ⟨s, hs, he'⟩, (fromFingerprints_sound M key _ p' this).2⟩
+      IsExec M p' ∧ encode key p' = encode key p :=
+  fp_roundtrip M key inj p h
 
 /-- decode then encode is the identity, and whatever `from_fingerprints` returns is an execution -/
 theorem C19_encode_roundtrip (M : Sys σ α) (key : σ → Nat) (fps : List Nat) (p : Path σ α)
@@ -157,6 +152,20 @@ theorem C19_status (M : Sys σ α) (key : σ → Nat) (exps : List Expect) (snap
         | none => rw [hls] at hl; cases hl
         | some s => rw [hls] at hl; simp at hl; exact ⟨s, rfl, hl⟩
 
+/-- `reconstruct_path` (what `discoveries()` and the visitor use) on a well-formed `generated` map —
+built as the checkers build it: initial states, then successors of the last state of an existing
+entry pointing to that entry (`GenOK`) — never panics and returns an execution through exactly the
+states of the entry's parent chain; so the discovery path shown by `/.status` for a recorded
+fingerprint IS the path along which the checker generated that state. -/
+theorem C19_reconstruct (M : Sys σ α) (key : σ → Nat) (inj : ∀ x y, key x = key y → x = y)
+    (gp : List ((Nat × Option Nat) × List σ)) (h : GenOK M key gp)
+    (fp : Nat) (par : Option Nat) (path : List σ) (hm : ((fp, par), path) ∈ gp) :
+    ∃ p, reconstructPath M key (gp.map (·.1)) fp = some p ∧ intoStates p = path ∧ IsExec M p ∧
+      encode key p = path.map key ∧ ∃ s, lastState p = some s ∧ key s = fp := by
+  obtain ⟨p, h1, h2, h3, h4⟩ := genOK_reconstruct inj h hm
+  obtain ⟨_, _, _, s, hs, hk⟩ := genOK_exec h fp par path hm
+  exact ⟨p, h1, h2, h3, h4, s, by rw [lastState_eq_getLast, h2]; exact hs, hk⟩
+
 /-- encoded form → url → fingerprints: the string `Path::encode` produces (decimal fingerprints joined
 by `/`), appended to `/.states/`, is parsed by the Explorer back into exactly the path's fingerprint
 sequence — for fingerprints in the range of `NonZeroU64` — so the three forms of a path (action list,
@@ -205,6 +214,11 @@ example : statesView exM exKey "/100" =
 example : statesView exM exKey "/100/103/" = none := by decide
 example : statesView exM exKey "/100/abc" = none := by decide
 example : encodeStr exKey exPath = "100/102/103" := by decide
+example : GenOK exM exKey [((103, some 102), [0, 2, 3]), ((102, some 100), [0, 2]), ((100, none), [0])] := by
+  have h0 : GenOK exM exKey [((exKey 0, none), [0])] := GenOK.root GenOK.nil (by simp [exM]) rfl
+  have h1 : GenOK exM exKey [((exKey 2, some (exKey 0)), [0] ++ [2]), ((exKey 0, none), [0])] :=
+    GenOK.child (par := none) (path := [0]) (s := 0) (t := 2) h0 (by simp) rfl (by decide) rfl
+  exact GenOK.child (par := some (exKey 0)) (path := [0, 2]) (s := 2) (t := 3) h1 (by simp [exKey]) rfl (by decide) rfl
 example : statesView exM exKey ("/" ++ encodeStr exKey exPath) = some [.step 0 (some 0)] := by decide
 example : (statusView exM exKey [.always] ⟨true, 5, 4, 3, [(103, some 102), (102, some 100), (100, none)], [(0, 103)]⟩).props
     = [(.always, 0, some [100, 102, 103])] := by decide
